@@ -31,4 +31,14 @@ theorem AsmTables_encode (t : InstType) (opc : Nat) (ops : List Operand) : encod
     (recognised as a whole by the translator: any other text makes a flag false) -/
 theorem AsmTables_shape : assembleLoopShape = true ∧ operandsTupleShape = true ∧ encodeHeadShape = true ∧ assembleTopShape = true := by decide
 
+/-- the numeric meaning of integer literals (`asm_parser.rs::integer`, its final `and_then`): for a `u64` magnitude the model's `applySign` is the source's if-chain —
+    hexadecimal literals are 64-bit patterns with the sign applied by `wrapping_mul`, decimal ones are range-checked against `i64` (2^63 only when negated) -/
+theorem AsmTables_integer (neg : Bool) (m : Nat) (isHex : Bool) (hm : m < 2 ^ 64) :
+    integerFinalSrc (if neg then -1 else 1) m isHex = applySign neg m isHex := by
+  have em : ∀ a b : Int, a.emod b = a % b := fun _ _ => rfl
+  unfold integerFinalSrc applySign u64ToI64 wrapI64 u64ToI64
+  cases neg <;> cases isHex <;> simp [em] <;> (repeat' split) <;> first | rfl | omega | (simp_all; omega) | simp_all
+
+theorem AsmTables_parserShapes : integerFinalSrcOk = true ∧ signShape = true ∧ hexParseShape = true ∧ decParseShape = true ∧ registerParseShape = true := by decide
+
 end Rbpf
